@@ -40,12 +40,24 @@ CHECKS = {
     text="Generated fns/modules declaring 0..4 dependency bounds in every syntactic form (inline, where, impl A + B, split, spread over module fns), by reference or by value, crossed with mock settings and both feature settings; for each, a family of probe types (all bounds, exactly one bound missing, unrelated extra trait, !Sync, Sync+!Send), bare and inside Impl<..>, is probed at run time and compared with `declared subset of traits(P) and Sync and (Send if by value)`, bare types only when not mockable. 2x400 programs (about 10 probes each) quick / 2x6000 thorough.",
     note="`'static` is not probed (selection ignores lifetimes). A program whose generated impl fails to type-check while its attribute-free twin compiles is reported as a dropped bound. Mock derivations stay un-exported here.",
     design="§2 C04"),
+ "C05": dict(
+    technique="property-based differential testing of compiled clients over four call routes (fn on &C, trait on C, on Impl<C>, on Impl<App> with a hand-written impl) plus availability probes",
+    engine="E2",
+    text="Generated concrete-dependency fns (type shapes ident/path/generic instantiation/tuple/array, elided or explicit reference lifetime, sync/async, owned or borrowed return, 0..3 arguments, options, both feature settings): the direct call on the relevant &C is the reference; the trait call on C, on Impl<C> (receiver must be the inner C) and on Impl<App> through a hand-written impl must give the same result and one-entry trace; probes assert which types implement the leaf trait. 300 programs quick / 5000 thorough.",
+    note="By-value concrete dependencies are covered by C03 (compile) rather than here; a program failing to compile while its attribute-free twin compiles is a violation.",
+    design="§2 C05"),
  "C06": dict(
     technique="property-based differential testing of compiled clients: recording provider called directly vs through Impl<App>, for the three delegation selectors; run-time availability probes",
     engine="E2",
     text="Generated traits (1..5 &self methods with repeated signatures, adjacent equal types, generic trait/method parameters, supertraits, wildcard parameters, &mut arguments, sync/async with and without async_trait) crossed with the selectors default/Self/ref/Borrow; each method is called on a recording provider and through Impl<App> with distinct values, comparing results, one-entry traces (method tag, provider address, arguments) and &mut arguments; probes assert Impl<App>: Tr, not Impl<NoProvider>, not Impl<!Sync app>. 400 programs quick / 5000 thorough. A program that fails to compile while its attribute-free twin compiles is a violation.",
     note="Don't-care: whether async + ref additionally needs T: Send. The provider call is the reference semantics.",
     design="§2 C06"),
+ "C07": dict(
+    technique="property-based differential testing of compiled clients: delegated trait with competing implementation blocks; trace of (target, fn, deps address, args) through Impl<A_k> vs the inherent call X_k::m(&app, ..)",
+    engine="E2",
+    text="Generated delegated traits (1..4 methods, repeated signatures, adjacent equal types, sync/async with/without async_trait), static (`delegate_by = DelegateTr`) or dynamic (`delegate_by = ref`), with 2..3 competing target types whose `#[entrait] impl TrImpl for X_k` fns use 0..3 further entrait dependencies, and one application per target. Calls through Impl<A_k> must produce exactly the trace and result of X_k::m(&app, args): right target, right fn, deps address == &Impl<A_k>, args in order, further dependencies usable. 300 programs quick / 4000 thorough.",
+    note="Generic methods on delegated traits are not generated (the macro source itself marks forwarding of method generics as TODO; the statement does not list them). Compile failures are judged against an attribute-free twin.",
+    design="§2 C07"),
  "C08": dict(
     technique="property-based testing: generated modules with decoy items, generator-side ground truth for the method list, syn-parsed trait of the expansion as observation",
     engine="E1",
